@@ -14,7 +14,13 @@ import (
 	"time"
 )
 
-const Root = "/verif"
+// Root of the verification tree (evidence, replays, known findings): $VERIF_ROOT or /verif.
+var Root = func() string {
+	if r := os.Getenv("VERIF_ROOT"); r != "" {
+		return r
+	}
+	return "/verif"
+}()
 
 type Run struct {
 	Property string
